@@ -1,8 +1,8 @@
 (* Refinement — the link between the faithful net model (NetModel.v) and the reference
    semantics (RefSem.v), proved (not only tested) for a fragment of programs.
    Part 1: what the generator builds, for every program of the fragment (Service / task call /
-   Parallel / Condition with a Passed and a Failed block, arbitrarily nested).  Statements proved
-   in Refine/GenSpec.v, nothing else here. *)
+   Parallel / Condition with or without a Failed block / While loop, arbitrarily nested).
+   Statements proved in Refine/GenSpec.v, nothing else here. *)
 From PFDL Require Import NetModel NetRun RunCase.
 From PFDL.Refine Require Import Eval Layout GenSpec Abs Sim Main.
 
@@ -10,12 +10,13 @@ From PFDL.Refine Require Import Eval Layout GenSpec Abs Sim Main.
    transitions, arcs, callbacks, API records and place_dict entries of the design
    (DESIGN.md Appendix A; [wired]), at the creation indices Layout.v computes; the entering
    transition gains the entry arcs and start callbacks, the following transition gains the exit
-   place, and nothing else in the net changes ([Gen]). *)
+   place, and nothing else in the net changes ([Gen]).  [il]: the component lies in a loop body
+   (the API records carry that flag). *)
 Theorem generator_builds_component :
-  forall s, frag s = true -> forall ctx t1 t2 ns,
+  forall s, frag s = true -> forall il ctx t1 t2 ns,
     okns ns -> t1 < List.length (ns_trans ns) -> t2 < List.length (ns_trans ns) ->
     let p := pos_of ns in
-    exists ns', pg_stmt ctx s t1 t2 ns = Ok (exits s p, ns') /\
+    exists ns', pg_stmt il ctx s t1 t2 ns = Ok (exits s p, ns') /\
                 Gen ns ns' t1 t2 (entries s p) (startcbs s p ctx) [xplace s p] /\
                 pos_of ns' = adv s p /\ okns ns' /\ wired ns' s p ctx [].
 Proof. exact gen_ok. Qed.
@@ -24,9 +25,9 @@ Print Assumptions generator_builds_component.
 (* generate_stmt of the implementation model on the source program performs exactly that walk
    over the call-tree unfolding (inlining of called tasks = Unfold.unfold_stmt) *)
 Theorem generator_walks_the_unfolding :
-  forall tasks fu tn path s x, unfold_stmt tasks fu tn path s = Ok x -> frag x = true ->
+  forall tasks fu il tn path s x, unfold_stmt tasks fu tn path s = Ok x -> frag x = true ->
     forall g ctx t1 t2 ns, need x <= g ->
-      generate_stmt tasks g ctx tn path s t1 t2 false ns = pg_stmt ctx x t1 t2 ns.
+      generate_stmt tasks g ctx tn path s t1 t2 il ns = pg_stmt il ctx x t1 t2 ns.
 Proof. exact A_stmt. Qed.
 Print Assumptions generator_walks_the_unfolding.
 
@@ -69,9 +70,12 @@ Theorem script_simulation :
 Proof. exact script_sim. Qed.
 Print Assumptions script_simulation.
 
-(* THE REFINEMENT THEOREM (stages 1-3 and the first half of stage 4: services, task calls,
-   Parallel, Condition with both blocks non-empty, arbitrarily nested; every kind of API call in
-   the script; the answers of the variable access function are arbitrary):
+(* THE REFINEMENT THEOREM (stages 1-4 without counting loops: services, task calls, Parallel,
+   Condition with or without a Failed block, While loops, arbitrarily nested -- components may
+   complete at once, inside the evaluation that the callback of a Condition or of a loop opens,
+   and loop bodies are entered again with the identifiers of the previous iteration still in the
+   API records; every kind of API call in the script; the answers of the variable access
+   function are arbitrary):
    on every case of the fragment on which the reference semantics produces a trace, the
    faithful net model produces the same trace, for every sufficiently large fuel *)
 Theorem net_refines_ref_fragment :
@@ -162,3 +166,80 @@ Proof.
   exists f0. intros f Hf. rewrite Href. apply H. exact Hf.
 Qed.
 Print Assumptions exc_refines.
+
+(* Conditions without a Failed block: when the test fails the Condition completes at once, inside
+   the evaluation that its callback opens, and the order goes on from there (here: through the
+   first statement, two whole tasks of a Parallel, a called task, the last statement -- the
+   production task finishes inside the start of its last statement). *)
+Definition cl (n : nat) : call := {| c_name := n; c_ins := []; c_outs := [] |}.
+Definition exd_tasks : list task :=
+  [{| t_name := 0; t_ins := [];
+      t_body := [SCond (lt3 30) [SService 31 [] []] [];
+                 SService 15 [] [];
+                 SCond (lt3 30) [SService 32 [] []] [];
+                 SParallel [cl 17; cl 18; cl 19];
+                 SCond (lt3 30) [SService 36 [] []] [];
+                 SCall (cl 19);
+                 SCond (lt3 30) [SService 36 [] []] []];
+      t_outs := [] |};
+   {| t_name := 17; t_ins := []; t_body := [SCond (EBool false) [SService 37 [] []] []; SService 26 [] []]; t_outs := [] |};
+   {| t_name := 18; t_ins := []; t_body := [SService 27 [] []; SCond (EBool false) [SService 37 [] []] []]; t_outs := [] |};
+   {| t_name := 19; t_ins := [];
+      t_body := [SCond (EBool false) [SService 37 [] []] []; SCond (EBool false) [SService 37 [] []] []]; t_outs := [] |}].
+Definition exd_case (vals : list Z) : runcase :=
+  {| rc_prog := {| p_structs := []; p_tasks := exd_tasks |};
+     rc_vals := map (fun n => VStruct [(4, VNum (QArith_base.Qmake n 1%positive))]) vals; rc_imm := [false];
+     rc_script := [AStart; AFinish 0; AFinish 1; AJunk; AFinish 2; AFinish 2; AFinish 3; AFinish 4; AFinish 5];
+     rc_react := [None]; rc_react_all := false; rc_mutate := 0; rc_test_ids := true |}.
+
+Example exd_in_fragment : in_fragment (exd_case [7%Z]) = true /\ in_fragment (exd_case [7%Z; 1%Z; 7%Z; 1%Z]) = true.
+Proof. split; vm_compute; reflexivity. Qed.
+
+Example exd_runs : forall vals, vals = [7%Z] \/ vals = [7%Z; 1%Z; 7%Z; 1%Z] ->
+    exists tr, run_ref (exd_case vals) = Ok tr /\ existsb (fun r => cr_final r) tr = true /\ run_net (exd_case vals) = Ok tr.
+Proof.
+  intros vals [-> | ->]; (eexists; split; [vm_compute; reflexivity|]; split; [reflexivity|]; vm_compute; reflexivity).
+Qed.
+
+Example exd_refines : exists f0, forall f, f0 <= f -> run_net_f f (exd_case [7%Z]) = run_ref (exd_case [7%Z]).
+Proof.
+  destruct (exd_runs [7%Z] (or_introl eq_refl)) as (tr & Href & _).
+  destruct (Main.net_refines_ref_fragment _ (proj1 exd_in_fragment) tr Href) as [f0 H].
+  exists f0. intros f Hf. rewrite Href. apply H. exact Hf.
+Qed.
+Print Assumptions exd_refines.
+
+(* While loops: a loop whose body is a service and a task call (two iterations), a loop whose
+   body is a Condition without Failed block (the test of the Condition fails in the second
+   iteration: the iteration completes at once), a loop inside a task started from a Parallel
+   (no iteration); every service of a loop body gets a new identifier in every iteration. *)
+Definition exw_tasks : list task :=
+  [{| t_name := 0; t_ins := [];
+      t_body := [SWhile (lt3 30) [SService 31 [PVar 16] []; SCall (cl 17)];
+                 SService 15 [] [];
+                 SWhile (lt3 30) [SCond (lt3 30) [SService 32 [] []] []];
+                 SParallel [cl 17; cl 18]];
+      t_outs := [] |};
+   {| t_name := 17; t_ins := []; t_body := [SService 26 [] []]; t_outs := [] |};
+   {| t_name := 18; t_ins := []; t_body := [SWhile (lt3 30) [SService 27 [] []]; SService 28 [] []]; t_outs := [] |}].
+Definition exw_case : runcase :=
+  {| rc_prog := {| p_structs := []; p_tasks := exw_tasks |};
+     rc_vals := map (fun n => VStruct [(4, VNum (QArith_base.Qmake n 1%positive))]) [1; 1; 7; 1; 1; 7; 7; 1; 7]%Z;
+     rc_imm := [false];
+     rc_script := [AStart; AFinish 0; AFinish 1; AJunk; AFinish 2; AFinish 3; AFinish 3; AFinish 4; AFinish 5; AFinish 6;
+                   AFinish 7; AFinish 8];
+     rc_react := [None]; rc_react_all := false; rc_mutate := 0; rc_test_ids := true |}.
+
+Example exw_in_fragment : in_fragment exw_case = true.
+Proof. vm_compute. reflexivity. Qed.
+
+Example exw_runs : exists tr, run_ref exw_case = Ok tr /\ List.length tr = 12 /\ existsb (fun r => cr_final r) tr = true
+                              /\ run_net exw_case = Ok tr.
+Proof. eexists. split; [vm_compute; reflexivity|]. split; [reflexivity|]. split; [reflexivity|]. vm_compute. reflexivity. Qed.
+
+Example exw_refines : exists f0, forall f, f0 <= f -> run_net_f f exw_case = run_ref exw_case.
+Proof.
+  destruct exw_runs as (tr & Href & _). destruct (Main.net_refines_ref_fragment exw_case exw_in_fragment tr Href) as [f0 H].
+  exists f0. intros f Hf. rewrite Href. apply H. exact Hf.
+Qed.
+Print Assumptions exw_refines.
